@@ -129,7 +129,7 @@ const TEXTS_ESC: &[(&str, &str)] = &[
 /// references to general entities declared by ENT_SUBSET (the logical value is what a DTD-aware parser would see)
 const TEXTS_ENT: &[(&str, &str)] = &[("&e;", "v"), ("&nbsp;", "\u{a0}"), ("&copy;", "(c)"), ("a&e;b", "avb"), ("&copy; 2024 &e;", "(c) 2024 v"), ("&d;", "d")];
 const ENT_SUBSET: &str = "<!ENTITY e \"v\"><!ENTITY nbsp \"&#160;\"><!ENTITY copy \"(c)\"><!ENTITY d 'd'>";
-const CDATAS: &[&str] = &["x", "<tag>&amp;</tag>", "]]", "a > b", "hello", "&lt;", "名", "]", "<!--no-->", "<?pi?>"];
+const CDATAS: &[&str] = &["x", "<tag>&amp;</tag>", "]]", "a > b", "hello", "&lt;", "名", "]", "<!--no-->", "<?pi?>", "Tom & Jerry", "?a=1&b=2", "&unknown;", "&#xZZ;", "&"];
 const CDATAS_PADDED: &[&str] = &[" x ", "\n x", " ", "\n"];
 
 const ATTR_VALUES: &[(&str, &str)] = &[("v", "v"), ("", ""), ("1", "1"), ("hello world", "hello world"), ("é", "é"), ("x-y_z.0", "x-y_z.0")];
@@ -164,7 +164,21 @@ const ATTR_VALUES_ESC: &[(&str, &str)] = &[
     ("&gt;", ">"),
 ];
 
-const COMMENTS: &[&str] = &["<!---->", "<!-- c -->", "<!--<a b='1'>-->", "<!-- & < > ]]> -->", "<!--\n-->"];
+const COMMENTS: &[&str] = &[
+    "<!---->",
+    "<!-- c -->",
+    "<!--<a b='1'>-->",
+    "<!-- & < > ]]> -->",
+    "<!--\n-->",
+    "<!-- served below /api/* -->",
+    "<!-- */ pub struct X { /* -->",
+    "<!-- // \"quoted\" \\ -->",
+    "<!--\n  two lines,\n  in EUR\n-->",
+    "<!-- \r\n \r\n -->",
+    "<!--#[derive(Debug)]-->",
+    "<!-- } -->",
+    "<!-- é名 -->",
+];
 const PIS: &[&str] = &["<?pi?>", "<?target data?>", "<?x <a> ?>", "<?php echo '>' ?>"];
 
 pub struct Ser<'t, 'c> {
@@ -176,13 +190,14 @@ pub struct Ser<'t, 'c> {
     pub n_selfclosed: u32,
     pub n_expanded_empty: u32,
     pub n_entity_refs: u32,
+    pub n_nil_true: u32,
     /// the document declares the general entities of TEXTS_ENT
     ent_ok: bool,
 }
 
 impl<'t, 'c> Ser<'t, 'c> {
     pub fn new(tape: &'t [u8], cfg: &'c SurfaceCfg) -> Self {
-        Ser { out: Vec::new(), t: Tape::new(tape), cfg, n_comments: 0, n_cdata: 0, n_selfclosed: 0, n_expanded_empty: 0, n_entity_refs: 0, ent_ok: false }
+        Ser { out: Vec::new(), t: Tape::new(tape), cfg, n_comments: 0, n_cdata: 0, n_selfclosed: 0, n_expanded_empty: 0, n_entity_refs: 0, n_nil_true: 0, ent_ok: false }
     }
 
     fn push(&mut self, s: &str) {
@@ -359,7 +374,19 @@ impl<'t, 'c> Ser<'t, 'c> {
             } else {
                 self.push("=");
             }
-            let (mut raw, logical) = self.attr_value();
+            let (mut raw, mut logical) = self.attr_value();
+            // attributes with a meaning of their own in XML Schema instances / XML 1.0 get the values that carry it
+            // (a function of the value drawn above, so that the tape is consumed as for any other attribute)
+            if a == "xsi:nil" {
+                logical = ["true", "1", "false", "true"][logical.len() % 4].to_string();
+                raw = logical.clone();
+                if logical != "false" {
+                    self.n_nil_true += 1;
+                }
+            } else if a == "xml:space" {
+                logical = ["preserve", "default"][logical.len() % 2].to_string();
+                raw = logical.clone();
+            }
             let q = if self.t.chance(60) { '\'' } else { '"' };
             // keep the value well-formed for the chosen quote
             if q == '\'' {
@@ -486,12 +513,13 @@ pub struct SerStats {
     pub selfclosed: u32,
     pub expanded_empty: u32,
     pub entity_refs: u32,
+    pub nil_true: u32,
 }
 
 pub fn serialize_stats(root: &Node, surface: &[u8], cfg: &SurfaceCfg) -> (Vec<u8>, VNode, SerStats) {
     let mut s = Ser::new(surface, cfg);
     let v = s.document(root);
-    let st = SerStats { comments: s.n_comments, cdata: s.n_cdata, selfclosed: s.n_selfclosed, expanded_empty: s.n_expanded_empty, entity_refs: s.n_entity_refs };
+    let st = SerStats { comments: s.n_comments, cdata: s.n_cdata, selfclosed: s.n_selfclosed, expanded_empty: s.n_expanded_empty, entity_refs: s.n_entity_refs, nil_true: s.n_nil_true };
     (s.out, v, st)
 }
 
@@ -505,7 +533,7 @@ pub fn serialize_docs(docs: &[Node], surface: &[u8], cfg: &SurfaceCfg) -> (Vec<V
         bytes.push(std::mem::take(&mut s.out));
         vs.push(v);
     }
-    let st = SerStats { comments: s.n_comments, cdata: s.n_cdata, selfclosed: s.n_selfclosed, expanded_empty: s.n_expanded_empty, entity_refs: s.n_entity_refs };
+    let st = SerStats { comments: s.n_comments, cdata: s.n_cdata, selfclosed: s.n_selfclosed, expanded_empty: s.n_expanded_empty, entity_refs: s.n_entity_refs, nil_true: s.n_nil_true };
     (bytes, vs, st)
 }
 
